@@ -19,6 +19,25 @@ import (
 // threads run freely and a thread that never finishes is reported as a failed assertion.
 func Threads(budget int, fs ...func()) {
 	load()
+	if Stress() {
+		// stress replay: plain goroutines, the test wrapper repeats the harness many times
+		var wg sync.WaitGroup
+		start := make(chan struct{})
+		for _, f := range fs {
+			wg.Add(1)
+			f := f
+			go func() { defer wg.Done(); <-start; f() }()
+		}
+		close(start)
+		done := make(chan struct{})
+		go func() { wg.Wait(); close(done) }()
+		select {
+		case <-done:
+		case <-time.After(3 * time.Second):
+			Failures = append(Failures, "deadlock: a thread never finished (stress replay)")
+		}
+		return
+	}
 	type nthread struct {
 		id     int
 		resume chan struct{}
